@@ -118,6 +118,11 @@ type Model struct {
 	lrSeed map[string]*lrEntry
 	// ErrAt lists, in order, the events at which an error was injected and kept.
 	errLog []int
+	// packrat memo (Memoize(true)): every (expression or rule, offset) is
+	// evaluated at most once; a hit yields the recorded (ok, end) and produces no
+	// events; the store is the caller's (a remembered result carries no store).
+	memoOn bool
+	memo   map[string][2]int
 }
 
 type lrEntry struct {
@@ -129,7 +134,7 @@ type lrEntry struct {
 // RunModel executes the model for a call. withState says whether the parser
 // variant has a state store at all.
 func RunModel(g *gen.Grammar, c *Call, withState bool) *Model {
-	m := &Model{g: g, in: c.Input, plan: &c.Plan, withState: withState, lrSeed: map[string]*lrEntry{}}
+	m := &Model{g: g, in: c.Input, plan: &c.Plan, withState: withState, lrSeed: map[string]*lrEntry{}, memoOn: c.Opts.Memoize, memo: map[string][2]int{}}
 	st := mstore{}
 	for _, kv := range c.Opts.InitState {
 		if strings.HasPrefix(kv[1], "C:") {
@@ -280,6 +285,15 @@ func (m *Model) apply(st mstore, ops []kernel.StateOp) mstore {
 func (m *Model) rule(r *gen.Rule, o int, st mstore) (bool, int, mstore) {
 	m.tick()
 	if !m.directLR(r) {
+		if m.memoOn {
+			key := fmt.Sprintf("R%s@%d", r.Name, o)
+			if h, ok := m.memo[key]; ok {
+				return h[0] == 1, h[1], st
+			}
+			ok, end, st2 := m.eval(r.Expr, o, st)
+			m.memo[key] = [2]int{b2i(ok), end}
+			return ok, end, st2
+		}
 		return m.eval(r.Expr, o, st)
 	}
 	key := fmt.Sprintf("%s@%d", r.Name, o)
@@ -322,7 +336,27 @@ func (m *Model) nullable() map[string]bool {
 	return n
 }
 
+func b2i(b bool) int {
+	if b {
+		return 1
+	}
+	return 0
+}
+
 func (m *Model) eval(e *gen.Expr, o int, st mstore) (bool, int, mstore) {
+	if m.memoOn {
+		key := fmt.Sprintf("E%d@%d", e.ID, o)
+		if h, ok := m.memo[key]; ok {
+			return h[0] == 1, h[1], st
+		}
+		ok, end, st2 := m.evalNode(e, o, st)
+		m.memo[key] = [2]int{b2i(ok), end}
+		return ok, end, st2
+	}
+	return m.evalNode(e, o, st)
+}
+
+func (m *Model) evalNode(e *gen.Expr, o int, st mstore) (bool, int, mstore) {
 	m.tick()
 	switch e.Kind {
 	case gen.Lit:
